@@ -1,6 +1,6 @@
 (* C07  Spatial fields respect physical bounds and phase equilibrium (1D / 0D step models). *)
 From Coq Require Import Reals ZArith List Bool.
-From Snow Require Import Num NumR Sn1D SnProofs.
+From Snow Require Import Num NumR Sn1D SnProofs Sn2D Sn2DProofs Sn2DMax.
 Import ListNotations.
 Local Open Scope R_scope.
 
@@ -48,3 +48,29 @@ Theorem C07_solid_interior_point_partial :
   lo <= solid_point Rops P a b d la lb ld w <= hi.
 Proof. intros. apply solid_point_convex; assumption. Qed.
 Print Assumptions C07_solid_interior_point_partial.
+
+(* 2D cooling stage, as the implementation sweeps it (in place, nine regions in order): every temperature stays
+   between the bounds of the previous field and the shelf temperature.  Conditions: explicit-scheme restriction
+   4 a/dr^2 + 2 a/dz^2 <= 1 with a = alpha dt, dr <= 2 r_j off the axis, K dz/lambda and Kw dr/lambda in [0,1],
+   no evaporative flux. *)
+Theorem C07_2D_cooling_step_max_principle :
+  forall (P : @p2d R) (Nz Nr : nat) (rr : list R) lo hi (g : @grid R) Tsh (qe : list R),
+  (3 <= Nz)%nat -> (3 <= Nr)%nat ->
+  0 <= s_alpha0 P * s_dt P -> 0 < s_dr P -> 0 < s_dz P ->
+  4 * (s_alpha0 P * s_dt P / (s_dr P * s_dr P)) + 2 * (s_alpha0 P * s_dt P / (s_dz P * s_dz P)) <= 1 ->
+  (forall j, (1 <= j < Nr)%nat -> s_dr P <= 2 * rj Rops rr j) ->
+  0 <= s_K P * s_dz P / s_lam0 P <= 1 -> 0 <= s_Kw P * s_dr P / s_lam0 P <= 1 ->
+  shape g Nz Nr -> gbounded Nz Nr lo hi g -> lo <= Tsh <= hi ->
+  length qe = Nr -> (forall j, (j < Nr)%nat -> nth j qe 0 = 0) ->
+  gbounded Nz Nr lo hi (cool_step2 Rops P Nz Nr rr g Tsh qe).
+Proof. intros. eapply cool_step2_max_principle; eassumption. Qed.
+Print Assumptions C07_2D_cooling_step_max_principle.
+
+(* the hypotheses are satisfiable (3x3 field between 0 and 1, jacket and shelf at 0) *)
+Example C07_2D_hypotheses_nonvacuous :
+  let P := MkP2 1 1 (1/10) (1/2) (1/2) 1 1  1 1 1 0 1 1  1 1 1 1 1 1 1  0 0 in
+  0 <= s_alpha0 P * s_dt P /\ 4 * (s_alpha0 P * s_dt P / (s_dr P * s_dr P)) + 2 * (s_alpha0 P * s_dt P / (s_dz P * s_dz P)) <= 1
+  /\ (forall j, (1 <= j < 3)%nat -> s_dr P <= 2 * rj Rops [0; 1; 2] j)
+  /\ 0 <= s_K P * s_dz P / s_lam0 P <= 1 /\ 0 <= s_Kw P * s_dr P / s_lam0 P <= 1
+  /\ shape [[0; 1; 0]; [1; 1; 1]; [0; 1; 0]] 3 3 /\ gbounded 3 3 0 1 [[0; 1; 0]; [1; 1; 1]; [0; 1; 0]].
+Proof. exact max2d_hypotheses_nonvacuous. Qed.
